@@ -5,6 +5,7 @@ import (
 	"log/slog"
 	"os"
 	"runtime"
+	"strings"
 	"testing"
 
 	"verif/harness/common"
@@ -57,6 +58,16 @@ func TestRun(t *testing.T) {
 		var c caseT
 		if err := common.LoadReplay(&c); err != nil {
 			rec.Inconclusive("cannot load replay: " + err.Error())
+			return
+		}
+		if strings.HasPrefix(c.Stage, "prog/") {
+			repro := 0
+			for i := 0; i < 3; i++ {
+				if !runProg(t, common.Prop, &c) {
+					repro++
+				}
+			}
+			rec.Note("replay: the violation reproduced in " + itoa(repro) + " of 3 runs")
 			return
 		}
 		n := 20
